@@ -843,6 +843,13 @@ func TestVerifC07Lab(t *testing.T) {
 	}
 	vC07LabMinHop(l, rand.New(rand.NewSource(int64(vC07EnvInt("VERIF_SEED", 1))*86028121+17)), hopN, scratch, emit)
 
+	// ------------------------------------------------- Authority / Additional of positive answers as the client sees them
+	secN := n / 5
+	if secN < 12 {
+		secN = 12
+	}
+	vC07LabSections(l, rand.New(rand.NewSource(int64(vC07EnvInt("VERIF_SEED", 1))*67867967+19)), secN, scratch, emit)
+
 	// ------------------------------------------------------- cached descent, live
 	for rep := 0; rep < 2; rep++ {
 		p := l.newPipe(0, scratch)
